@@ -67,8 +67,8 @@ Lemma opt_eqbN_eq a b : opt_eqb N.eqb a b = true -> a = b.
 Proof. destruct a, b; cbn; try discriminate; auto. intros H. apply N.eqb_eq in H. congruence. Qed.
 Lemma ty_eqb_eq a b : ty_eqb a b = true -> a = b.
 Proof.
-  destruct a, b. unfold ty_eqb. cbn. rewrite andb_true_iff. intros [H1 H2].
-  apply N.eqb_eq in H1. apply eqb_prop in H2. congruence.
+  destruct a, b. unfold ty_eqb. cbn. rewrite !andb_true_iff. intros [[H1 H2] H3].
+  apply N.eqb_eq in H1. apply eqb_prop in H2. apply opt_eqbN_eq in H3. congruence.
 Qed.
 Lemma aval_eqb_eq v w : aval_eqb v w = true -> v = w.
 Proof.
@@ -190,7 +190,7 @@ Definition plain (d:dialect) : bool :=
 
 Lemma effect_plain d sch req ex ss st0 :
   plain d = true -> autoinc_honoured (mkIn d sch req ex) = true -> matches ex st0 ->
-  model_C13 (mkIn d sch req ex) = (ss, None) -> run ss st0 = override st0 req.
+  inner_C13 (mkIn d sch req ex) = (ss, None) -> run ss st0 = override st0 req.
 Proof.
   intros Hd Ha Hm H.
   assert (Hk := autoinc_keep (mkIn d sch req ex) st0 Ha). cbn [i_d i_req i_ex] in Hk.
@@ -216,7 +216,7 @@ Qed.
 
 Lemma effect_mssql sch req ex ss st0 :
   autoinc_honoured (mkIn Dmssql sch req ex) = true -> matches ex st0 -> stated_enough ss req ex st0 ->
-  model_C13 (mkIn Dmssql sch req ex) = (ss, None) -> run ss st0 = override st0 req.
+  inner_C13 (mkIn Dmssql sch req ex) = (ss, None) -> run ss st0 = override st0 req.
 Proof.
   intros Ha Hm He H.
   assert (Hk := autoinc_keep (mkIn Dmssql sch req ex) st0 Ha eq_refl Hm). cbn [i_d i_req i_ex] in Hk.
@@ -341,9 +341,9 @@ End MySQLFields.
 
 Lemma effect_mysql d sch req ex ss st0 :
   is_mysql d = true -> matches ex st0 -> stated_enough ss req ex st0 ->
-  model_C13 (mkIn d sch req ex) = (ss, None) -> run ss st0 = override st0 req.
+  inner_C13 (mkIn d sch req ex) = (ss, None) -> run ss st0 = override st0 req.
 Proof.
-  intros Hd Hm He H. unfold model_C13, plan, alter_column in H. cbn [i_d i_req i_ex] in H.
+  intros Hd Hm He H. unfold inner_C13, alter_column in H. cbn [i_d i_req i_ex] in H.
   assert (H' : mysql_alter_column d req ex = (ss, None)) by (destruct d; try discriminate Hd; exact H).
   clear H. apply mysql_out in H'; [|exact Hd].
   destruct H' as [[t [T [_ [S|[N S]]]]]|[[N [Nn [Nt [Na [Nc [_ S]]]]]]|[_ [_ [E _]]]]]; [| | |discriminate E].
@@ -357,8 +357,8 @@ Proof.
 Qed.
 
 (* ---------------------------------------------------------------- main effect theorem *)
-Theorem effect_all i ss st0 :
-  autoinc_honoured i = true -> model_C13 i = (ss, None) -> matches (i_ex i) st0 ->
+Theorem effect_all_inner i ss st0 :
+  autoinc_honoured i = true -> inner_C13 i = (ss, None) -> matches (i_ex i) st0 ->
   stated_enough ss (i_req i) (i_ex i) st0 -> run ss st0 = override st0 (i_req i).
 Proof.
   destruct i as [d sch req ex]. cbn [i_req i_ex]. intros Ha H Hm He.
@@ -373,7 +373,7 @@ Proof.
 Qed.
 
 (* ---------------------------------------------------------------- raises exactly when unsupported *)
-Lemma raises_iff_unsupported i : isSome (snd (model_C13 i)) = unsupported i.
+Lemma raises_iff_unsupported_inner i : isSome (snd (inner_C13 i)) = unsupported i.
 Proof.
   destruct i as [d sch req ex]. destruct ex as [en et enl ed ec ea].
   destruct req as [rt rn rd rname rc ra ru].
@@ -381,8 +381,8 @@ Proof.
   - destruct rt, rn, rd, rname, rc; reflexivity.
   - destruct rt, rn, rd, rname, rc; reflexivity.
   - destruct rt, rn, rd, rname, rc, ru; reflexivity.
-  - destruct rt as [[? [|]]|], et as [[? [|]]|], rn, rd, rname, rc, ra; reflexivity.
-  - destruct rt as [[? [|]]|], et as [[? [|]]|], rn, rd, rname, rc, ra; reflexivity.
+  - destruct rt as [[? [|] ?]|], et as [[? [|] ?]|], rn, rd, rname, rc, ra; reflexivity.
+  - destruct rt as [[? [|] ?]|], et as [[? [|] ?]|], rn, rd, rname, rc, ra; reflexivity.
   - destruct rt, et, enl, ed, rn, rd, rname, rc; reflexivity.
   - destruct rt, rn, rd, rname, rc; reflexivity.
 Qed.
@@ -396,7 +396,7 @@ Ltac inv_in :=
          end.
 
 Lemma no_invention_plain d sch req ex ss e :
-  plain d = true -> model_C13 (mkIn d sch req ex) = (ss, e) -> no_invention req ex ss.
+  plain d = true -> inner_C13 (mkIn d sch req ex) = (ss, e) -> no_invention req ex ss.
 Proof.
   intros Hd H s v w Hs Hv Hr Hst. clear Hst.
   destr_req req. all: destruct ru as [ru|].
@@ -406,7 +406,7 @@ Proof.
 Qed.
 
 Lemma no_invention_mssql sch req ex ss e :
-  model_C13 (mkIn Dmssql sch req ex) = (ss, e) -> no_invention req ex ss.
+  inner_C13 (mkIn Dmssql sch req ex) = (ss, e) -> no_invention req ex ss.
 Proof.
   intros H s v w Hs Hv Hr Hst.
   destruct ex as [en et enl ed ec ea].
@@ -433,9 +433,9 @@ Proof.
 Qed.
 
 Lemma no_invention_mysql d sch req ex ss e :
-  is_mysql d = true -> model_C13 (mkIn d sch req ex) = (ss, e) -> no_invention req ex ss.
+  is_mysql d = true -> inner_C13 (mkIn d sch req ex) = (ss, e) -> no_invention req ex ss.
 Proof.
-  intros Hd H s v w Hs Hv Hr Hst. unfold model_C13, plan, alter_column in H. cbn [i_d i_req i_ex] in H.
+  intros Hd H s v w Hs Hv Hr Hst. unfold inner_C13, alter_column in H. cbn [i_d i_req i_ex] in H.
   assert (H' : mysql_alter_column d req ex = (ss, e)) by (destruct d; try discriminate Hd; exact H).
   clear H. apply mysql_out in H'; [|exact Hd].
   destruct H' as [[t [T [_ [S|[N S]]]]]|[[N [Nn [Nt [Na [Nc [_ S]]]]]]|[_ [S _]]]]; subst ss.
@@ -447,7 +447,7 @@ Proof.
   - inv_in.
 Qed.
 
-Theorem no_invention_all i ss e : model_C13 i = (ss, e) -> no_invention (i_req i) (i_ex i) ss.
+Theorem no_invention_all_inner i ss e : inner_C13 i = (ss, e) -> no_invention (i_req i) (i_ex i) ss.
 Proof.
   destruct i as [d sch req ex]. cbn [i_req i_ex]. intros H. destruct d.
   - exact (no_invention_plain Ddefault sch req ex ss e eq_refl H).
@@ -463,7 +463,7 @@ Qed.
 Ltac old_or_new := first [left; reflexivity | right; reflexivity].
 
 Lemma prefix_plain d sch req ex ss e st0 :
-  plain d = true -> model_C13 (mkIn d sch req ex) = (ss, Some e) ->
+  plain d = true -> inner_C13 (mkIn d sch req ex) = (ss, Some e) ->
   forall a, get a (run ss st0) = get a st0 \/ get a (run ss st0) = get a (override st0 req).
 Proof.
   intros Hd H a. destruct st0 as [n t nl df cm ai].
@@ -474,7 +474,7 @@ Proof.
 Qed.
 
 Lemma prefix_mssql sch req ex ss e st0 :
-  matches ex st0 -> stated_enough ss req ex st0 -> model_C13 (mkIn Dmssql sch req ex) = (ss, Some e) ->
+  matches ex st0 -> stated_enough ss req ex st0 -> inner_C13 (mkIn Dmssql sch req ex) = (ss, Some e) ->
   forall a, get a (run ss st0) = get a st0 \/ get a (run ss st0) = get a (override st0 req).
 Proof.
   intros Hm He H a.
@@ -491,24 +491,24 @@ Proof.
 Qed.
 
 Lemma prefix_mysql d sch req ex ss e st0 :
-  is_mysql d = true -> model_C13 (mkIn d sch req ex) = (ss, Some e) ->
+  is_mysql d = true -> inner_C13 (mkIn d sch req ex) = (ss, Some e) ->
   forall a, get a (run ss st0) = get a st0 \/ get a (run ss st0) = get a (override st0 req).
 Proof.
-  intros Hd H a. unfold model_C13, plan, alter_column in H. cbn [i_d i_req i_ex] in H.
+  intros Hd H a. unfold inner_C13, alter_column in H. cbn [i_d i_req i_ex] in H.
   assert (H' : mysql_alter_column d req ex = (ss, Some e)) by (destruct d; try discriminate Hd; exact H).
   clear H. apply mysql_out in H'; [|exact Hd].
   destruct H' as [[t [T [E _]]]|[[N [Nn [Nt [Na [Nc [E S]]]]]]|[_ [S _]]]]; try discriminate E.
   subst ss. left. reflexivity.
 Qed.
 
-Theorem raises_instead_all i ss e :
-  model_C13 i = (ss, Some e) ->
+Theorem raises_instead_all_inner i ss e :
+  inner_C13 i = (ss, Some e) ->
   unsupported i = true /\
   forall st0, matches (i_ex i) st0 -> stated_enough ss (i_req i) (i_ex i) st0 ->
     forall a, get a (run ss st0) = get a st0 \/ get a (run ss st0) = get a (override st0 (i_req i)).
 Proof.
   intros H. split.
-  - rewrite <- raises_iff_unsupported, H. reflexivity.
+  - rewrite <- raises_iff_unsupported_inner, H. reflexivity.
   - destruct i as [d sch req ex]. cbn [i_req i_ex]. intros st0 Hm He. destruct d.
     + exact (prefix_plain Ddefault sch req ex ss e st0 eq_refl H).
     + exact (prefix_plain Dsqlite sch req ex ss e st0 eq_refl H).
@@ -519,7 +519,188 @@ Proof.
     + exact (prefix_plain Doracle sch req ex ss e st0 eq_refl H).
 Qed.
 
-(* ---------------------------------------------------------------- the model satisfies the property *)
+
+(* ---------------------------------------------------------------- autoincrement is ignored outside MySQL *)
+Lemma autoinc_never_assigned_inner i :
+  is_mysql (i_d i) = false -> lastset AAutoinc (all_assign (fst (inner_C13 i))) = None.
+Proof.
+  destruct i as [d sch req ex]. cbn [i_d]. intros Hd.
+  destruct ex as [en et enl ed ec ea].
+  destr_req req. all: destruct ru as [ru|].
+  all: destruct d; try discriminate Hd; try reflexivity.
+  all: destruct et as [et|], enl as [enl|], ed as [| |ed]; reflexivity.
+Qed.
+
+
+Definition req_autoinc_only : request := mkReq None None TFalse None TFalse (Some true) None.
+Definition ex_nothing : existing := mkEx 1 None None TFalse None None.
+Definition st_plain : colstate := mkCol 1 (mkTy 0 false None) true None None false.
+
+
+(* ---------------------------------------------------------------- which existing_* values are needed *)
+Lemma stated_enough_attrs ss req ex st0 :
+  stated_enough ss req ex st0 <->
+  (forall a, In a (restated_attrs ss) -> req_val req a = None -> known ex st0 a).
+Proof.
+  unfold stated_enough, restated_attrs. split.
+  - intros H a Ha Hr. apply in_flat_map in Ha. destruct Ha as [s [Hs Ha]]. eauto.
+  - intros H s a Hs Ha Hr. apply H; auto. apply in_flat_map. eauto.
+Qed.
+
+Lemma restated_plain d sch req ex :
+  plain d = true -> restated_attrs (fst (inner_C13 (mkIn d sch req ex))) = [].
+Proof.
+  intros Hd. destr_req req. all: destruct ru as [ru|].
+  all: destruct d; try discriminate Hd; reflexivity.
+Qed.
+
+Lemma restated_mysql d sch req ex :
+  is_mysql d = true ->
+  restated_attrs (fst (inner_C13 (mkIn d sch req ex))) =
+  if mysql_restates req ex then [AType; ANull; ADefault; AComment; AAutoinc] else [].
+Proof.
+  intros Hd. destruct ex as [en et enl ed ec ea]. destruct req as [rt rn rd rname rc ra ru].
+  destruct d; try discriminate Hd.
+  all: destruct rt as [[? [|] ?]|], et as [[? [|] ?]|], rn, rd, rname, rc, ra; reflexivity.
+Qed.
+
+Lemma exact_mssql sch req ex st0 :
+  stated_enough (fst (inner_C13 (mkIn Dmssql sch req ex))) req ex st0 <->
+  (isSome (r_type req) = true -> r_null req = None -> known ex st0 ANull).
+Proof.
+  rewrite stated_enough_attrs.
+  destruct ex as [en et enl ed ec ea].
+  destr_req req.
+  all: destruct et as [et|], enl as [enl|], ed as [| |ed].
+  all: vm_compute fst; cbn [restated_attrs flat_map restates app isSome r_type r_null].
+  all: split; intros H.
+  (* -> *)
+  all: try (intros _ _; apply H; cbn; auto; fail).
+  all: try (intros _ E; discriminate E).
+  all: try (intros E; discriminate E).
+  (* <- *)
+  all: intros a Ha Hr; inv_in; cbn in Hr; try discriminate Hr.
+  all: try (left; cbn; discriminate).
+  all: apply H; reflexivity.
+Qed.
+
+Theorem stated_enough_exact_inner i st0 :
+  stated_enough (fst (inner_C13 i)) (i_req i) (i_ex i) st0 <-> existing_needed i st0.
+Proof.
+  destruct i as [d sch req ex]. unfold existing_needed. cbn [i_d i_req i_ex].
+  destruct d.
+  1,2,3,7: (rewrite stated_enough_attrs, restated_plain by reflexivity; split; [tauto|intros _ a []]).
+  1,2: (rewrite stated_enough_attrs, restated_mysql by reflexivity; destruct (mysql_restates req ex);
+        split; [intros H _; exact H|intros H; apply H; reflexivity|intros _ E; discriminate E|intros _ a []]).
+  apply exact_mssql.
+Qed.
+
+
+(* ================================================================== Part 3: the toimpl layer
+   toimpl.alter_column only wraps the impl-level call in DROP/ADD CONSTRAINT statements for type-bound
+   CHECKs; these leave the six column attributes alone, so everything lifts. *)
+
+Lemma all_assign_noop ps : forallb noop ps = true -> all_assign ps = [].
+Proof.
+  unfold all_assign. induction ps as [|s r IH]; [reflexivity|]. cbn [forallb flat_map].
+  rewrite andb_true_iff. intros [Hs Hr]. rewrite (IH Hr). destruct s; try discriminate Hs; reflexivity.
+Qed.
+Lemma restated_noop ps : forallb noop ps = true -> restated_attrs ps = [].
+Proof.
+  unfold restated_attrs. induction ps as [|s r IH]; [reflexivity|]. cbn [forallb flat_map].
+  rewrite andb_true_iff. intros [Hs Hr]. rewrite (IH Hr). destruct s; try discriminate Hs; reflexivity.
+Qed.
+
+Lemma model_shape i : exists ps qs, forallb noop ps = true /\ forallb noop qs = true /\
+  model_C13 i = (ps ++ fst (inner_C13 i) ++ (match snd (inner_C13 i) with None => qs | Some _ => [] end),
+                 snd (inner_C13 i)).
+Proof.
+  unfold model_C13, inner_C13, plan, toimpl_alter_column.
+  set (pre := match e_type (i_ex i), r_type (i_req i) with
+              | Some et, Some _ => match ty_ck et with Some k => drop_constraint (i_d i) k | None => ret end
+              | _, _ => ret end).
+  set (post := match ck_of (r_type (i_req i)) with Some k => add_constraint (i_d i) k | None => ret end).
+  assert (Hpre : exists ps, forallb noop ps = true /\ pre = (ps, None)).
+  { unfold pre, drop_constraint, ret. destruct (e_type (i_ex i)) as [et|], (r_type (i_req i)) as [rt|];
+      try (exists []; split; reflexivity).
+    destruct (ty_ck et) as [k|]; [|exists []; split; reflexivity].
+    destruct (i_d i); eexists; (split; [|reflexivity]); reflexivity. }
+  assert (Hpost : exists qs, forallb noop qs = true /\ post = (qs, None)).
+  { unfold post, add_constraint, ret. destruct (ck_of (r_type (i_req i))) as [k|]; [|exists []; split; reflexivity].
+    destruct (i_d i); eexists; (split; [|reflexivity]); reflexivity. }
+  destruct Hpre as [ps [Hps ->]]. destruct Hpost as [qs [Hqs ->]].
+  exists ps, qs. split; [exact Hps|]. split; [exact Hqs|].
+  destruct (alter_column (i_d i) (i_req i) (i_ex i)) as [ss [e|]]; cbn; rewrite ?app_nil_r, <- ?app_assoc; reflexivity.
+Qed.
+
+Lemma model_facts i :
+  snd (model_C13 i) = snd (inner_C13 i) /\
+  all_assign (fst (model_C13 i)) = all_assign (fst (inner_C13 i)) /\
+  restated_attrs (fst (model_C13 i)) = restated_attrs (fst (inner_C13 i)) /\
+  (forall s, In s (fst (model_C13 i)) -> noop s = true \/ In s (fst (inner_C13 i))).
+Proof.
+  destruct (model_shape i) as [ps [qs [Hps [Hqs ->]]]]. cbn [fst snd].
+  assert (Hq : forallb noop (match snd (inner_C13 i) with None => qs | Some _ => [] end) = true)
+    by (destruct (snd (inner_C13 i)); [reflexivity|exact Hqs]).
+  split; [reflexivity|]. split; [|split].
+  - unfold all_assign. rewrite !flat_map_app. fold (all_assign ps).
+    fold (all_assign (match snd (inner_C13 i) with None => qs | Some _ => [] end)).
+    rewrite (all_assign_noop _ Hps), (all_assign_noop _ Hq), app_nil_r. reflexivity.
+  - unfold restated_attrs. rewrite !flat_map_app. fold (restated_attrs ps).
+    fold (restated_attrs (match snd (inner_C13 i) with None => qs | Some _ => [] end)).
+    rewrite (restated_noop _ Hps), (restated_noop _ Hq), app_nil_r. reflexivity.
+  - intros s Hs. rewrite !in_app_iff in Hs. destruct Hs as [Hs|[Hs|Hs]]; [left|right; exact Hs|left].
+    + rewrite forallb_forall in Hps. auto.
+    + rewrite forallb_forall in Hq. auto.
+Qed.
+
+Lemma run_model i st0 : run (fst (model_C13 i)) st0 = run (fst (inner_C13 i)) st0.
+Proof. rewrite !run_flat. destruct (model_facts i) as [_ [-> _]]. reflexivity. Qed.
+
+Lemma stated_enough_model i st0 :
+  stated_enough (fst (model_C13 i)) (i_req i) (i_ex i) st0 <-> stated_enough (fst (inner_C13 i)) (i_req i) (i_ex i) st0.
+Proof. rewrite !stated_enough_attrs. destruct (model_facts i) as [_ [_ [-> _]]]. tauto. Qed.
+
+Theorem raises_iff_unsupported i : isSome (snd (model_C13 i)) = unsupported i.
+Proof. destruct (model_facts i) as [-> _]. apply raises_iff_unsupported_inner. Qed.
+
+Theorem effect_all i ss st0 :
+  autoinc_honoured i = true -> model_C13 i = (ss, None) -> matches (i_ex i) st0 ->
+  stated_enough ss (i_req i) (i_ex i) st0 -> run ss st0 = override st0 (i_req i).
+Proof.
+  intros Ha H Hm He.
+  assert (Hf : fst (model_C13 i) = ss) by (rewrite H; reflexivity).
+  assert (Hs : snd (inner_C13 i) = None) by (destruct (model_facts i) as [<- _]; rewrite H; reflexivity).
+  rewrite <- Hf in He |- *. rewrite run_model. apply stated_enough_model in He.
+  destruct (inner_C13 i) as [ss' e'] eqn:Hi. cbn [fst snd] in *. subst e'.
+  eapply effect_all_inner; eauto.
+Qed.
+
+Theorem no_invention_all i ss e : model_C13 i = (ss, e) -> no_invention (i_req i) (i_ex i) ss.
+Proof.
+  intros H s v w Hs Hv Hr Hst.
+  assert (Hf : fst (model_C13 i) = ss) by (rewrite H; reflexivity). rewrite <- Hf in Hs.
+  destruct (model_facts i) as [_ [_ [_ Hin]]]. destruct (Hin s Hs) as [Hn|Hn].
+  - destruct s; try discriminate Hn; destruct Hv.
+  - destruct (inner_C13 i) as [ss' e'] eqn:Hi. cbn [fst] in Hn.
+    eapply (no_invention_all_inner i ss' e' Hi); eauto.
+Qed.
+
+Theorem raises_instead_all i ss e :
+  model_C13 i = (ss, Some e) ->
+  unsupported i = true /\
+  forall st0, matches (i_ex i) st0 -> stated_enough ss (i_req i) (i_ex i) st0 ->
+    forall a, get a (run ss st0) = get a st0 \/ get a (run ss st0) = get a (override st0 (i_req i)).
+Proof.
+  intros H.
+  assert (Hf : fst (model_C13 i) = ss) by (rewrite H; reflexivity).
+  assert (Hs : snd (inner_C13 i) = Some e) by (destruct (model_facts i) as [<- _]; rewrite H; reflexivity).
+  destruct (inner_C13 i) as [ss' e'] eqn:Hi. cbn [snd] in Hs. subst e'.
+  destruct (raises_instead_all_inner i ss' e Hi) as [Hu Hp]. split; [exact Hu|].
+  intros st0 Hm He a. rewrite <- Hf in He |- *. rewrite run_model, Hi. cbn [fst].
+  apply Hp; auto. apply stated_enough_model in He. rewrite Hi in He. exact He.
+Qed.
+
 Theorem model_holds_partial i : autoinc_honoured i = true -> C13_holds i (model_C13 i).
 Proof.
   intros Ha. destruct (model_C13 i) as [ss e] eqn:H. unfold C13_holds.
@@ -531,27 +712,16 @@ Proof.
     + intros st0 Hm He. eapply effect_all; eauto.
 Qed.
 
-(* ---------------------------------------------------------------- autoincrement is ignored outside MySQL *)
-Lemma autoinc_never_assigned i :
-  is_mysql (i_d i) = false -> lastset AAutoinc (all_assign (fst (model_C13 i))) = None.
-Proof.
-  destruct i as [d sch req ex]. cbn [i_d]. intros Hd.
-  destruct ex as [en et enl ed ec ea].
-  destr_req req. all: destruct ru as [ru|].
-  all: destruct d; try discriminate Hd; try reflexivity.
-  all: destruct et as [et|], enl as [enl|], ed as [| |ed]; reflexivity.
-Qed.
+(* toimpl's own statements never touch the six attributes *)
+Theorem toimpl_frame i st0 : run (fst (model_C13 i)) st0 = run (fst (inner_C13 i)) st0.
+Proof. apply run_model. Qed.
 
 Theorem autoinc_ignored i st0 :
   is_mysql (i_d i) = false -> c_autoinc (run (fst (model_C13 i)) st0) = c_autoinc st0.
 Proof.
-  intros Hd. pose proof (get_run AAutoinc (fst (model_C13 i)) st0) as H.
-  rewrite (autoinc_never_assigned i Hd) in H. cbn in H. congruence.
+  intros Hd. rewrite run_model. pose proof (get_run AAutoinc (fst (inner_C13 i)) st0) as H.
+  rewrite (autoinc_never_assigned_inner i Hd) in H. cbn in H. congruence.
 Qed.
-
-Definition req_autoinc_only : request := mkReq None None TFalse None TFalse (Some true) None.
-Definition ex_nothing : existing := mkEx 1 None None TFalse None None.
-Definition st_plain : colstate := mkCol 1 (mkTy 0 false) true None None false.
 
 Theorem autoinc_refuted d sch :
   is_mysql d = false ->
@@ -571,69 +741,15 @@ Proof.
   specialize (H Hm He). discriminate H.
 Qed.
 
-(* ---------------------------------------------------------------- which existing_* values are needed *)
-Lemma stated_enough_attrs ss req ex st0 :
-  stated_enough ss req ex st0 <->
-  (forall a, In a (restated_attrs ss) -> req_val req a = None -> known ex st0 a).
-Proof.
-  unfold stated_enough, restated_attrs. split.
-  - intros H a Ha Hr. apply in_flat_map in Ha. destruct Ha as [s [Hs Ha]]. eauto.
-  - intros H s a Hs Ha Hr. apply H; auto. apply in_flat_map. eauto.
-Qed.
-
-Lemma restated_plain d sch req ex :
-  plain d = true -> restated_attrs (fst (model_C13 (mkIn d sch req ex))) = [].
-Proof.
-  intros Hd. destr_req req. all: destruct ru as [ru|].
-  all: destruct d; try discriminate Hd; reflexivity.
-Qed.
-
-Lemma restated_mysql d sch req ex :
-  is_mysql d = true ->
-  restated_attrs (fst (model_C13 (mkIn d sch req ex))) =
-  if mysql_restates req ex then [AType; ANull; ADefault; AComment; AAutoinc] else [].
-Proof.
-  intros Hd. destruct ex as [en et enl ed ec ea]. destruct req as [rt rn rd rname rc ra ru].
-  destruct d; try discriminate Hd.
-  all: destruct rt as [[? [|]]|], et as [[? [|]]|], rn, rd, rname, rc, ra; reflexivity.
-Qed.
-
-Lemma exact_mssql sch req ex st0 :
-  stated_enough (fst (model_C13 (mkIn Dmssql sch req ex))) req ex st0 <->
-  (isSome (r_type req) = true -> r_null req = None -> known ex st0 ANull).
-Proof.
-  rewrite stated_enough_attrs.
-  destruct ex as [en et enl ed ec ea].
-  destr_req req.
-  all: destruct et as [et|], enl as [enl|], ed as [| |ed].
-  all: vm_compute fst; cbn [restated_attrs flat_map restates app isSome r_type r_null].
-  all: split; intros H.
-  (* -> *)
-  all: try (intros _ _; apply H; cbn; auto; fail).
-  all: try (intros _ E; discriminate E).
-  all: try (intros E; discriminate E).
-  (* <- *)
-  all: intros a Ha Hr; inv_in; cbn in Hr; try discriminate Hr.
-  all: try (left; cbn; discriminate).
-  all: apply H; reflexivity.
-Qed.
-
 Theorem stated_enough_exact i st0 :
   stated_enough (fst (model_C13 i)) (i_req i) (i_ex i) st0 <-> existing_needed i st0.
-Proof.
-  destruct i as [d sch req ex]. unfold existing_needed. cbn [i_d i_req i_ex].
-  destruct d.
-  1,2,3,7: (rewrite stated_enough_attrs, restated_plain by reflexivity; split; [tauto|intros _ a []]).
-  1,2: (rewrite stated_enough_attrs, restated_mysql by reflexivity; destruct (mysql_restates req ex);
-        split; [intros H _; exact H|intros H; apply H; reflexivity|intros _ E; discriminate E|intros _ a []]).
-  apply exact_mssql.
-Qed.
+Proof. rewrite stated_enough_model. apply stated_enough_exact_inner. Qed.
 
 Local Open Scope N_scope.
 
 (* ---------------------------------------------------------------- minimality witnesses *)
-Definition T0 := mkTy 10 false.
-Definition T1 := mkTy 11 false.
+Definition T0 := mkTy 10 false None.
+Definition T1 := mkTy 11 false None.
 Definition req_type_only : request := mkReq (Some T1) None TFalse None TFalse None None.
 
 Ltac matches_tac := intros a v; destruct a; cbn; intros E; try discriminate E; injection E as <-; reflexivity.
